@@ -19,3 +19,5 @@ def run(out, sc, tier, seed):
     n = 12000 if tier == "quick" else 100000
     run_progs(out, sc, "C12", {"gen": "progs", "n": n, "seed": seed, "fields": FIELDS, "typed": True, "depths": [1, 2, 3],
                                "ops": ["with_query", "extend_query", "update_query", "without_query_params"]}, "query")
+    from .common import run_witnesses
+    run_witnesses(out, sc, "C12", fields=FIELDS)
